@@ -67,6 +67,7 @@ def probe_strategy(bytes_pool, lines_pool):
     return st.one_of(
         b.map(lambda x: {"k": "dis", "b": x}),
         b.map(lambda x: {"k": "lift", "b": x}),
+        b.map(lambda x: {"k": "liftsimp", "b": x}),
         b.map(lambda x: {"k": "render", "b": x}),
         st.sampled_from(lines_pool).map(lambda t: {"k": "asm", "l": t[1], "att": int(t[0])}),
         st.sampled_from(["mov eax, ", "bogus line", "add eax, [", "fadd ST, ST(1)", "mov [eax*3*5], 1", "push"]).map(lambda l: {"k": "asm", "l": l, "att": 0}),
@@ -94,29 +95,54 @@ def eval_features(p):
     return "+".join(f)
 
 
+def feat(p):
+    return p["k"] + (":" + eval_features(p) if p["k"] == "eval" else "")
+
+
 def run_history(h, zyg):
-    """-> list of failures (sig, detail)"""
+    """-> list of failures (sig, detail).  The history runs in one child forked from the pristine zygote (so it really starts from an
+    empty history); every call is compared with the same call alone in another fresh child."""
     fails = []
-    fp0 = probes.table_fingerprint()
-    kinds_before = []
-    for idx, p in enumerate(h):
-        with runner.quiet():
-            res, mut = probes.run_probe(p)
+    out = zyg.history(h)
+    if not isinstance(out, dict):
+        raise runner.Inconclusive("history child failed: %r" % (out,))
+    for idx, (p, (res, mut)) in enumerate(zip(h, out["steps"])):
         want = zyg.result(p)
-        res = json.loads(json.dumps(res))
         if res != want:
-            prev = sorted(set(kinds_before))
-            culprit = "after:" + ("eval" if "eval" in prev else "+".join(prev[:3]))
-            fails.append((("result-differs", p["k"], eval_features(p), culprit),
-                          "call #%d %s returned %s; with an empty history it returns %s (history kinds: %s)" % (
-                              idx, json.dumps(p)[:300], json.dumps(res)[:200], json.dumps(want)[:200], kinds_before[-8:])))
+            # the earliest single earlier call that alone changes this call's result
+            culprit = None
+            for j in range(idx):
+                o2 = zyg.history([h[j], p], fingerprint=False)
+                if isinstance(o2, dict) and o2["steps"][1][0] != want:
+                    culprit = j
+                    break
+            pair = [h[culprit], p] if culprit is not None else h[:idx + 1]
+            mech = None
+            for r in probes.RESETS:
+                o3 = zyg.history(pair, fingerprint=False, reset=r)
+                if isinstance(o3, dict) and o3["steps"][-1][0] == want:
+                    mech = r
+                    break
+            sig = ("result-differs", "mechanism:" + mech) if mech else ("result-differs", feat(p), "after:" + (feat(h[culprit]) if culprit is not None else "several-calls"))
+            fails.append((sig, "call #%d %s returned %s; with an empty history it returns %s (%s%s)" % (
+                              idx, json.dumps(p)[:300], json.dumps(res)[:200], json.dumps(want)[:200],
+                              ("already after the single call %s" % json.dumps(h[culprit])[:300]) if culprit is not None else "no single earlier call reproduces it",
+                              ("; clearing the hidden state '%s' before the call restores the result" % mech) if mech else ""), pair))
             break
         if mut:
-            fails.append((("input-mutated", p["k"], mut), "call #%d %s: %s" % (idx, json.dumps(p)[:300], mut)))
-        kinds_before.append(p["k"] + (":" + eval_features(p) if p["k"] == "eval" else ""))
-    fp1 = probes.table_fingerprint()
-    if fp1 != fp0:
-        fails.append((("shared-tables-changed", "+".join(sorted(set(x.split(":")[0] for x in kinds_before)))[:60]), "the digest of the shared instruction/register tables changed during %s" % kinds_before))
+            o2 = zyg.history([p], fingerprint=False)
+            alone = isinstance(o2, dict) and o2["steps"][0][1] == mut
+            fails.append((("input-mutated", p["k"], mut), "call #%d %s: %s%s" % (idx, json.dumps(p)[:300], mut, " (also as the only call)" if alone else ""), [p] if alone else h[:idx + 1]))
+    if out["tables_changed"]:
+        # which single call does it?
+        who = None
+        for p in h:
+            o2 = zyg.history([p])
+            if isinstance(o2, dict) and o2["tables_changed"]:
+                who = p
+                break
+        fails.append((("shared-tables-changed", feat(who) if who else "several-calls"), "the digest of the shared instruction/register tables changed during the history%s" % (
+            (": already by the single call %s" % json.dumps(who)[:300]) if who else "")))
     return fails
 
 
@@ -133,6 +159,10 @@ def pools(run):
             if i is not None:
                 bs.append(bytes(b[:i.l]).hex())
     bs = sorted(set(bs))[:600]
+    # sub-register forms: their operands are the shared slice objects of the register tables
+    for op in ("88", "8a", "86", "6689", "0fb6", "00", "6601"):
+        for modrm in range(0xC0, 0x100):
+            bs.append(op + "%02x" % modrm)
     from checks.c02_asm import collect
     lines = []
     for sp in collect(asmgen.spec(), 400, run.seed):
@@ -151,12 +181,12 @@ def w_hist(run, st_, k, item):
         fails = run_history(h, zyg)
         st_.klass("history_len_%d" % (10 * (len(h) // 10)))
         first = None
-        for sig, det in fails:
-            sig = runner.norm_sig(sig)
+        for f in fails:
+            sig, det = runner.norm_sig(f[0]), f[1]
             if sig in run.known:
                 st_.known_hits[sig] += 1
             elif first is None:
-                first = (sig, det)
+                first = (sig, det, {"history": f[2] if len(f) > 2 else h})
         if first is None and len(h) >= 2:
             ks = [p["k"] for p in h]
             if any(ks[i] == ks[j] for i in range(len(ks)) for j in range(i + 2, len(ks))):
@@ -164,13 +194,17 @@ def w_hist(run, st_, k, item):
                 st_.sample([dict((a, (b if len(json.dumps(b)) < 80 else "...")) for a, b in p.items()) for p in h[:6]])
         return first
     runner.hyp_drive(run, st_, st.lists(probe_strategy(bs, lines), min_size=2, max_size=run.pick(25, 50)), orc, n, run.seed * 1000 + k,
-                     to_case=lambda h: {"history": h})
+                     to_case=lambda h: {"history": h}, shrink=False)
 
 
 # ---- parser-table cache configurations ---------------------------------------------------------
 def cache_items(run):
     from checks.c02_asm import collect
     items = [{"t": "syspath"}]
+    for l in ("mov eax, DWORD PTR [ecx*4+ebx]", "mov eax, DWORD PTR [ebx+ecx*4]", "lea edx, [esi*2+edi+8]", "add DWORD PTR [edx*8+eax+4], 1", "mov eax, [2*4+8]", "mov eax, 2+3*4"):
+        items.append({"t": "asm", "l": l, "att": 0})
+    for l in ("movl 2+3*4(%eax), %ebx", "movl $2+3*4, %ebx", "movl 8(%eax,%ecx,4), %edx"):
+        items.append({"t": "asm", "l": l, "att": 1})
     for sp in collect(asmgen.spec(), run.pick(300, 2000), run.seed + 5):
         items.append({"t": "asm", "l": asmgen.intel(sp), "att": 0})
         a = asmgen.att(sp)
@@ -254,6 +288,21 @@ def cache_matrix(run):
         open(os.path.join(d, fs[0]), "w").write(b)
         open(os.path.join(d, fs[1]), "w").write(a)
         configs.append(("table-of-another-grammar", d))
+    # tables written by an "earlier revision" of the grammars: today's sources minus one precedence declaration, same table names
+    d = fresh("stale")
+    repo = os.environ.get("VERIF_REPO", "/repo")
+    stale_src = ("import sys\nfor path in sys.argv[1:]:\n    src = open(path).read()\n    old = \"    ('left','TIMES'),\\n\"\n"
+                 "    if src.count(old) != 1: sys.exit(7)\n    g = {'__name__': 'old_revision', '__file__': path}\n    exec(compile(src.replace(old, ''), path, 'exec'), g)\n")
+    env = dict(os.environ)
+    env["TMPDIR"] = d
+    env["PYTHONPATH"] = "%s:%s:%s" % (repo, HERE, os.path.join(HERE, ".deps"))
+    pr = subprocess.run([sys.executable, "-c", stale_src, os.path.join(repo, "miasmx/core/parse_ad.py"), os.path.join(repo, "miasmx/arch/ia32_att.py")],
+                        env=env, cwd=HERE, stdout=subprocess.DEVNULL, stderr=subprocess.PIPE, timeout=600)
+    sigs = lambda dd: sorted(l for f in sorted(os.listdir(dd)) if f.endswith(".py") for l in open(os.path.join(dd, f)) if l.startswith("_lr_signature"))
+    if pr.returncode == 0 and len([f for f in os.listdir(d) if f.endswith(".py")]) >= 1 and sigs(d) != sigs(ref_dir):
+        configs.append(("stale-grammar-revision", d))
+    else:
+        run.exclude("cache:stale_revision_could_not_be_derived")
     for name, d in configs:
         if name == "populated-readonly":
             os.chmod(d, stat.S_IRUSR | stat.S_IXUSR)
@@ -287,8 +336,11 @@ def main(run):
     run.assumptions = ["a zygote forked before any API call defines the empty-history result", "object identity and repr addresses are never compared",
                        "cmt / arg_expr attributes of instruction objects are outputs and not part of the input snapshot"]
     bs, lines = pools(run)
-    runner.pmap(run, w_hist, [(run.pick(60, 1500), bs, lines)] * 16)
-    cache_matrix(run)
+    only = os.environ.get("VERIF_C12_ONLY")        # developer switch
+    if only in (None, "hist"):
+        runner.pmap(run, w_hist, [(run.pick(60, 1500), bs, lines)] * 16)
+    if only in (None, "cache"):
+        cache_matrix(run)
     for z in ZYGOTES:
         z.close()
 
@@ -310,8 +362,8 @@ def replay(run, case):
                 return (sig, det)
         return None
     fails = run_history(case["history"], ZYGOTES[-1])
-    for sig, det in fails:
-        sig = runner.norm_sig(sig)
+    for f in fails:
+        sig = runner.norm_sig(f[0])
         if run.want_sig is None or sig == run.want_sig:
-            return (sig, det)
+            return (sig, f[1])
     return None
